@@ -16,7 +16,8 @@ RULE = ("random: command trees from vp/gen_cmd.py (hyphen=0.3, flag_subs=0.3) de
         "non-trivial when the engine returned at least one candidate; distinct = distinct case text.")
 TRUSTED = [
     "Coq 8.16.1 kernel (coqc); no native_compute; theorems C18_* are 'Closed under the global context' (no axioms, also no "
-    "standard-library axioms); round-2 proofs reuse ParseProofs/{Spelling,Dispatch,ErrorSound}.v of C08/C09/C10",
+    "standard-library axioms); round-2/3 proofs reuse ParseProofs/{Spelling,Dispatch,ErrorSound,Chain,Actions,ActionsLoop,ActionsTop,UnparseProofs}.v "
+    "of C08/C09/C10/C07/C02 (imported, unchanged)",
     "extraction: ExtrOcamlBasic only, no Extract Constant; OCaml driver ocaml/dynamic_driver.ml + common_parse/spec.ml",
     "correspondence: vp/props/c18.py generators, harness/src/modes/dynamic.rs, multiset comparison of (value, hidden) candidates",
     "modelled not verified: Parse/Build.v blocks of Command::_build_self and Parse/Valid.v assert_app (shared parser model), "
@@ -34,7 +35,7 @@ TECHNIQUE = ("Coq proof (totality incl. fuel, soundness, completeness of the eng
              "parse and the PARSER model's token loop along option prefixes and subcommand names; end-to-end acceptance of every "
              "offered option/subcommand candidate by parse_top on whole lines; level correspondence) + extracted-model/implementation "
              "correspondence")
-LEVEL_TEXT = ("Machine-checked theorems (Coq 8.16, NPIN pinned, all closed under the global context) about a function-by-function "
+LEVEL_TEXT = ("Machine-checked theorems (Coq 8.16, 54 pinned, all closed under the global context) about a function-by-function "
               "model of clap_complete::engine::complete: no panic site is reachable and no fuel runs out for any command, argv "
               "and index (build_full's fuel proved sufficient); in state ValueDone every option/subcommand candidate extends the "
               "word and names an option/alias/subcommand of the level reached by the shadow parse; under assert_app's uniqueness "
@@ -51,7 +52,11 @@ LEVEL_TEXT = ("Machine-checked theorems (Coq 8.16, NPIN pinned, all closed under
               "lvl18_b, cand_class_b).  Every visible long, visible alias, short (after '', '-', clusters of flags) and subcommand "
               "name extending the word is represented (arguments with a long name), hidden candidates appear only when no visible "
               "one does; value candidates of an option awaiting a value are exactly the declared possible values extending the "
-              "last element behind the typed delimiter prefix.  The model is tied to clap_complete by running the extracted model "
+              "last element behind the typed delimiter prefix; candidates without id in state ValueDone/Pos are declared possible "
+              "values of the positional at pos_index (sound for plain words, complete for visible values, hidden ones offered "
+              "unless a visible candidate is); after `--` the shadow parse reads no token as an option (C18_escaped_step) while "
+              "the candidates are not restricted to positionals (C18_escape_only_positionals_refuted, outside the property).  "
+              "The model is tied to clap_complete by running the extracted model "
               "and the real crate on the same generated cases on every check; an independent python oracle splices each candidate "
               "into the line and has the real parser accept it.")
 LEVEL_NOTE = ("Trusted: Coq kernel, extraction, OCaml driver, Rust harness, generators; Command::build blocks and assert_app "
